@@ -95,6 +95,8 @@ func generate(family string, n int, seed uint64) []Scenario {
 			out = append(out, genStale(i))
 		case "errwin":
 			out = append(out, genErrWin(rr, i))
+		case "multifail":
+			out = append(out, genMultiFail(rr, i))
 		case "boot":
 			out = append(out, genBoot(rr, i))
 		default:
